@@ -54,8 +54,9 @@ def seq_world(dendropy, case):
     ref = _new_array(dendropy, ns, case["r"], False, case["set"])
     for tr in trees:
         ref.add_tree(tr)
-    rq = X.queries(ref)["cons"]
-    setup = {"action": "Setup", "ref": {"raised": rq["raised"], "g": rq["g"]}, "trees": [proj.tree_graph(t) for t in trees], "w": [t["w"] for t in case["trees"]],
+    rq = X.queries(ref)
+    setup = {"action": "Setup", "ref": {"raised": rq["cons"]["raised"], "g": rq["cons"]["g"],
+                                        "lowraised": rq["conslow"]["raised"], "lowg": rq["conslow"]["g"]}, "trees": [proj.tree_graph(t) for t in trees], "w": [t["w"] for t in case["trees"]],
              "set": case["set"], "r": case["r"], "arrs": [X.proj_array(a) for a in arrs]}
     return ns, trees, arrs, setup
 
@@ -122,7 +123,7 @@ class SeqWorld(object):
         w.alive, w.nxt = set(self.alive), self.nxt
         return w
 
-    def step(self, op, rng, sid, newsid, query=True):
+    def step(self, op, rng, sid, newsid, query=True, warm=False):
         """one model transition on the real objects -> events (the call, then the queries after a merge)"""
         arrs = self.arrs
         if op[0] == "AddTree":
@@ -135,6 +136,8 @@ class SeqWorld(object):
             evs = [ev]
         else:
             _, kind, k, j = op
+            if warm and len(arrs[k - 1]._tree_split_bitmasks) > 0:
+                X.queries(arrs[k - 1])      # history "query, merge, query": the summaries were looked at before the merge
             evs = [seq_merge(arrs, kind, k, j)]
             self.alive.discard(j)
         evs[0]["from"], evs[0]["to"] = sid, newsid
@@ -161,7 +164,7 @@ def run_seq(case):
     fan = case.get("fan", [])
     for op in fan:
         top += 1
-        evs.extend(w.clone().step(op, rng, sid, top))
+        evs.extend(w.clone().step(op, rng, sid, top, warm=rng.random() < 0.5))
     if not fan:
         last = case["ops"][-1] if case["ops"] else None
         for k in sorted(w.alive):
